@@ -263,7 +263,24 @@ def gen_selection(rng, node, depth=1):
             pre[int(rng.integers(len(pre) - 1))] = "*"
         return ("at", tuple(pre))
 
+    def wild_and():
+        """Intersection of a wildcard path with a concrete path through the same site (non-empty
+        by construction), in either operand order, optionally complemented."""
+        deep = [sp for sp in spaths if len(sp) >= 2]
+        if not deep:
+            return atom()
+        sp = deep[int(rng.integers(len(deep)))]
+        j = int(rng.integers(len(sp) - 1))
+        wild = list(sp)
+        wild[j] = "*"
+        k = int(rng.integers(j + 1, len(sp) + 1))
+        a, b = ("at", tuple(wild)), ("at", tuple(sp[:k]))
+        t = ("and", a, b) if rng.random() < 0.5 else ("and", b, a)
+        return ("not", t) if rng.random() < 0.25 else t
+
     def term(d):
+        if d > 0 and rng.random() < 0.1:
+            return wild_and()
         if d <= 0 or rng.random() < 0.45:
             return atom()
         r = rng.random()
